@@ -509,7 +509,25 @@ def gen_play(rng):
         ents.append((gen_key(rng), gen_value(rng, 2)))
     if rng.random() < 0.5:
         rng.shuffle(ents)
-    return dict(ents)
+    play = dict(ents)
+    # exclusion requests derived from the play's OWN structure: existing children of hosts/vars (valid) and of any other
+    # top-level mapping, whole top-level keys, sequence children (all invalid: must be a verification error)
+    v = play.get("vars")
+    if isinstance(v, dict) and isinstance(v.get(EXCL), str) and rng.random() < 0.3:
+        reqs = []
+        for k, val in play.items():
+            if not isinstance(k, str) or "," in k or "/" in k:
+                continue
+            reqs.append("/" + k)
+            if isinstance(val, dict):
+                reqs.extend("/%s/%s" % (k, c) for c in val if isinstance(c, str) and "," not in c and "/" not in c and c != EXCL)
+            if isinstance(val, list) and val:
+                reqs.append("/%s/0" % k)
+        if reqs:
+            chosen = [rng.choice(reqs) for _ in range(rng.choice([1, 1, 2]))]
+            base = rng.choice(["/vars/insights_signature", "/hosts,/vars/insights_signature", ""])
+            v[EXCL] = ",".join([x for x in [base] + chosen if x])
+    return play
 
 
 # ---- edits: every result is just another play; the oracle decides from the cores what must happen
